@@ -44,6 +44,8 @@ package referenceclient
 //@   requires orig != nil && orig.URL != nil && orig.Body != nil
 //@   modifies nrN, nrMethod, nrBody, nrReq, rtReq, hAddN, hAddH, hAddKey, hAddVal, map[string][]string, []string, http.Request.ContentLength, url.URL.RawQuery,
 //@            wrOut, bufContent, cmpDst, cmpBuf, cmpBase, cmpBaseB, rawErr, rdPos
+//@   //# the URI: the given one verbatim, or - with extra query parameters - the rendering by net/url of the parsed given URI
+//@   assert_at "io.Pipe()": (len(r.rawRequest.RawQueryParams) == 0 && len(r.rawRequest.EncodedQueryParams) == 0) ? uri == r.rawRequest.Uri : isRenderOf(uri, r.rawRequest.Uri)
 //@   ensures @sent rtReq[0] != old(rtReq[0]) ==> nrN[0] == old(nrN[0]) + 1 && rtReq[0] == nrReq[0] && nrMethod[0] == r.rawRequest.Verb
 //@   ensures @headers rtReq[0] != old(rtReq[0]) ==> hAddN[0] == old(hAddN[0]) + flatLen(r.rawRequest.Headers, len(r.rawRequest.Headers)) &&
 //@       (forall j int, i int :: 0 <= j && j < len(r.rawRequest.Headers) && 0 <= i && i < len(r.rawRequest.Headers[j].Value) ==>
